@@ -31,6 +31,7 @@ fn run_labels(case: &TrainCase, run: &TrainRun, cx: &mut Ctx) {
     cx.label_if(case.train.dummy, "dummy_consist");
     cx.label_if(case.train.hybrids > 0, "consist_with_hybrid_locomotive");
     cx.label_if(case.train.late_battery, "consist_given_its_battery_units_through_set_loco_vec");
+    cx.label_if(case.train.consist_limits_off, "consist_runs_with_limit_checking_off");
     cx.label_if(case.train.cars.iter().any(|c| c.n == 0), "car_type_listed_with_zero_cars");
     cx.label_if(case.init_offset_extra > 0.0, "starts_further_along_the_path");
     cx.label_if(case.and_parts, "built_through_and_parts_constructor");
@@ -184,6 +185,8 @@ impl C11 {
         }
         // 20 %: the consist object first held its fuel-only units
         c.train.late_battery = g.bool(0.2);
+        // 15 %: the consist runs with limit checking off
+        c.train.consist_limits_off = g.bool(0.15);
         c
     }
     fn check(case: &TrainCase, cx: &mut Ctx) {
